@@ -264,6 +264,34 @@ theorem guard_flexPushSeal (it : Ty) (l : LenTy) (f pos : Nat) (data : Slice) (z
     simp [pushWalk, hr, hmax, Slice.splitAt, hsplit, hv, hz, hc, Gen.gFlexPushSeal_cond, Gen.gFlexPushSeal_kind,
       Gen.flexPushSeal, ceilMul_eq]
 
+/-- the tail of `FlexVec::push`, after the walk to the end of the chain: the room test for the new slot header, and — the item
+emplaced *first*, then the new slot marked, then the previous item sealed (the extraction site exists only while the three
+statements stand in that order) — the shift of the item emplacer's error -/
+theorem guard_flexPushTail (it : Ty) (l : LenTy) (i : Init) (data : Slice) (w : PushWalk)
+    (hw : pushWalk it l (data.len + 1) 0 data = .ok (.ok w)) (hle : w.pos ≤ data.len) :
+    flexPush it l i data =
+      let os := max l.size it.dict.align
+      if Gen.gFlexPushRoom_cond (data.len - w.pos) os w.pos then .ok ⟨data.bytes, .error ⟨Gen.gFlexPushRoom_kind, w.pos⟩⟩
+      else
+        (emplace it i ⟨data.addr + w.pos + os, data.bytes.drop (w.pos + os)⟩).bind fun o =>
+          let b1 := data.bytes.take (w.pos + os) ++ o.bytes
+          match o.res with
+          | .error e => .ok ⟨b1, .error { e with pos := e.pos + Gen.flexPushItemErrPos w.pos os }⟩
+          | .ok () =>
+            (writeAt b1 w.pos (encLenTy l l.max)).bind fun b2 =>
+              match w.sealing with
+              | none => .ok (EO.ok b2)
+              | some (q, v) => (writeAt b2 q (encLenTy l v)).bind fun b3 => .ok (EO.ok b3) := by
+  have hnl : ¬ data.len < w.pos := by omega
+  simp only [flexPush, hw, Res.bind, hnl, if_false, Gen.gFlexPushRoom_cond, Gen.gFlexPushRoom_kind, Gen.flexPushItemErrPos,
+    decide_eq_true_eq, Nat.add_assoc]
+  split
+  · rfl
+  · cases emplace it i ⟨data.addr + (w.pos + max l.size it.dict.align), data.bytes.drop (w.pos + max l.size it.dict.align)⟩ with
+    | ok o => cases o.res <;> rfl
+    | err e => rfl
+    | fault f => rfl
+
 /-- the generated validators of enums: the tag range test of `tag.rs` (`*tag < #var_count`, else `InvalidEnumTag @ 0`) and, for an
 unsized enum, the per-variant room test of `cast.rs` — made on the payload *after* it has been floored to the alignment (the site
 regex requires that order), refused with the extracted kind -/
@@ -287,7 +315,7 @@ theorem guard_uenum (tag : LenTy) (vs : List (List Dict)) (s : Slice) (t : Nat) 
   · cases s.dropU (ceilMul tag.size (max tag.align (alignLL vs))) <;> simp
   · rfl
 
-theorem guards_untranslatable_none : (Gen.gEnumVariantRoom_untranslatable || Gen.cTagInRange_untranslatable || Gen.gCheckAlign_untranslatable || Gen.gCheckMin_untranslatable || Gen.gVecValidate_untranslatable ||
+theorem guards_untranslatable_none : (Gen.gFlexPushRoom_untranslatable || Gen.flexPushItemErrPos_untranslatable || Gen.gEnumVariantRoom_untranslatable || Gen.cTagInRange_untranslatable || Gen.gCheckAlign_untranslatable || Gen.gCheckMin_untranslatable || Gen.gVecValidate_untranslatable ||
     Gen.gVecFromArray_untranslatable || Gen.gStrValidate_untranslatable || Gen.gFlexSlotAlign_untranslatable || Gen.gFlexBadOffset_untranslatable ||
     Gen.gFlexShort_untranslatable || Gen.gFlexFillRoom_untranslatable || Gen.gFlexFillSeal_untranslatable || Gen.gFlexPushSeal_untranslatable) = false := by decide
 end FV.Bridge
